@@ -47,17 +47,22 @@ func expect(exchange string, etype int, p refkdc.Perturb, addrsRequested bool) s
 		}
 		return "either"
 	case "ticket-realm":
-		if as {
-			return "either"
-		}
+		// the realm of the server the ticket is for: TGS replies are compared with the request; for
+		// AS replies "the server name and realm match the outstanding request" covers the ticket's own
+		// (unprotected) fields too - the client files the TGT under them
 		return "reject"
+	case "ticket-sname":
+		if as {
+			return "reject"
+		}
+		return "either"
 	case "caddr-added":
 		// "addresses inside the allowed bounds": a reply may list fewer addresses than were asked
 		// for, never one that was not asked for - also when none was asked for
 		return "reject"
 	case "caddr-dropped":
 		return "either"
-	case "authtime":
+	case "authtime", "starttime":
 		a := p.Arg
 		if a < 0 {
 			a = -a
@@ -468,6 +473,10 @@ func run(tapeJSON json.RawMessage, res *core.Result) {
 		retry := c == 52 && !tp.TCP && udpFault == "" || tp.Exchange == "as" && (c == 24 || c == 25 || c == 68)
 		want := fmt.Sprintf("err:%d", c)
 		switch {
+		case retry && outcome == "fail" && delivered == 0 && udpFault == "":
+			// the client may act on these codes and try again (whatever comes of that is the outcome);
+			// when it cannot, the caller has to get the KDC's error, not only the reason it could not
+			engine.Violate(res, fmt.Sprintf("krb-error-code-lost|%s|client-could-not-act-on-code-%d", exName, c), d)
 		case retry:
 			res.Stats["dont_care"]++
 		case outcome == "success":
